@@ -171,21 +171,29 @@ Qed.
 Print Assumptions C16_compile_wf_large_before_fix.
 
 (* ---------- the compiler's output is well formed: code with jumps ---------- *)
-(* Fragment pfrag2: a top-level sequence of declarations `x := e`, of
-   `for x := range …` loops WITH a loop variable (step ranges and iterables;
-   at top level the compiler makes x a global), and of statements of the
-   control-flow fragment cfrag — assignments `x = e` to globals, if / else-if /
-   else chains, while, break, `for range …` WITHOUT a loop variable —
-   arbitrarily nested, with all expressions in the expression fragment efrag
-   (so: no declarations and no loop variables INSIDE blocks, i.e. LocalCount
-   = 0, and no arrays/maps/index/slice — _partial).  For
-   every such program: if the compiler succeeds and leaves no pending break
-   (a break outside a loop, which the parser rejects), its output satisfies
-   WF — every jump operand the compiler back-patches (condition exits, end-of-if
-   jumps, loop-back jumps, breaks) lands on an instruction boundary inside the
-   program, and the stack states agree at every join (incl. the OpDrop of the
-   range loops).  No size guard: out-of-range operands and jump targets are
-   compile errors at HEAD (e351c68). *)
+(* Fragment pfrag2 (= cfrag on every top-level statement): declarations
+   `x := e` and `for x := range …` loops WITH a loop variable (step ranges and
+   iterables) — at top level the compiler makes x a global, inside a block a
+   LOCAL of the block's scope —, assignments `x = e` to globals and locals,
+   if / else-if / else chains, while, break, `for range …` without a loop
+   variable — arbitrarily nested, with all expressions in the expression
+   fragment efrag (reads of globals and locals; _partial: no arrays / maps /
+   index / slice, no function calls).  For every such program: if the compiler
+   succeeds and leaves no pending break (a break outside a loop, which the
+   parser rejects), its output satisfies WF with LocalCount = the
+   nestedMaxIndex of the compiler's root table:
+   - every jump operand the compiler back-patches (condition exits, end-of-if
+     jumps, loop-back jumps, breaks) lands on an instruction boundary inside
+     the program, and the stack states agree at every join (incl. the OpDrop
+     of the range loops), counted ABOVE the LocalCount slots the VM reserves
+     (WFg_shift: the transfer function does not depend on that base);
+   - every OpGetLocal / OpSetLocal operand is below LocalCount: the symbol the
+     compiler resolved or defined is live in the table at that moment
+     (SymTabProofs.live_below_bound) and SymTabProofs.bound only grows along
+     the compilation (bound_step; the relation SX of CompileSymProofs.v is
+     what a compiled statement may do to the table).
+   No size guard: out-of-range operands and jump targets are compile errors
+   at HEAD (e351c68). *)
 Theorem C16_compile_wf_ctl_partial : forall (p : slist) (st : cstate),
   pfrag2 p = true -> compile p = COk st -> cbreaks st = [] ->
   WF {| bcode := out_code (bytecode_of st); nconsts := N.of_nat (List.length (out_consts (bytecode_of st)));
@@ -355,6 +363,41 @@ Example C16_ex_ctl_fragment :
                    gcount := out_gcount bc; lcount := out_lcount bc |} = true) /\
       match vm_run 2000 (program_of (bytecode_of st)) (vm_init (program_of (bytecode_of st))) with
       | FHalted s => nth_error (globals s) 0 = Some (VNum (float_of_Z 5))
+      | _ => False
+      end
+  | CErr _ => False
+  end.
+Proof. vm_compute. repeat split; reflexivity. Qed.
+
+(* x := 0
+   while x < 3
+     y := x + 1                         // local slot 0
+     if y == 2: z := y * 2  x = x + z   // local slot 1
+     else:      w := 1      x = x + w   // local slot 1 again (z is dead)
+     end
+     for i := range 2: x = x + i end    // loop variable: local slot 1
+   end          // x = 4; LocalCount = 4 (Pop adds nestedMaxIndex and index) *)
+Definition ex_locals : slist :=
+  let num k := ENum (float_of_Z k) in
+  let xadd e := SAssign (EVar (s_ "x")) (EBin BPlus TNum TNum (EVar (s_ "x")) e) in
+  SCons (SDecl (s_ "x") (num 0%Z))
+ (SCons (SWhile (EBin BLt TNum TNum (EVar (s_ "x")) (num 3%Z))
+          (SCons (SDecl (s_ "y") (EBin BPlus TNum TNum (EVar (s_ "x")) (num 1%Z)))
+          (SCons (SIf (EBin BEq TNum TNum (EVar (s_ "y")) (num 2%Z))
+                      (SCons (SDecl (s_ "z") (EBin BStar TNum TNum (EVar (s_ "y")) (num 2%Z))) (SCons (xadd (EVar (s_ "z"))) SNil))
+                      CNil
+                      (Else (SCons (SDecl (s_ "w") (num 1%Z)) (SCons (xadd (EVar (s_ "w"))) SNil))))
+          (SCons (SForStep (Some (s_ "i")) ONoneE (num 2%Z) ONoneE (SCons (xadd (EVar (s_ "i"))) SNil)) SNil)))) SNil).
+
+Example C16_ex_locals_fragment :
+  pfrag2 ex_locals = true /\
+  match compile ex_locals with
+  | COk st => cbreaks st = [] /\ out_lcount (bytecode_of st) = 4%N /\
+      (let bc := bytecode_of st in
+       wf_check {| bcode := out_code bc; nconsts := N.of_nat (List.length (out_consts bc));
+                   gcount := out_gcount bc; lcount := out_lcount bc |} = true) /\
+      match vm_run 2000 (program_of (bytecode_of st)) (vm_init (program_of (bytecode_of st))) with
+      | FHalted s => nth_error (globals s) 0 = Some (VNum (float_of_Z 4))
       | _ => False
       end
   | CErr _ => False
